@@ -42,7 +42,11 @@ type faultScenario struct {
 }
 
 // faultTail: scenarios whose last N sink writes are enumerated exhaustively (fail once, nothing accepted).
-var faultTail = map[string]int{"xz-300-blocks": 1300}
+var faultTail = map[string]int{"xz-300-blocks": 1300, "xz-many-blocks": 1300}
+
+// faultAllByteWrites: scenarios whose every sink call is a fault point also when the sink is an
+// io.ByteWriter (one call per compressed byte: the range coder's pending-byte runs included).
+var faultAllByteWrites = map[string]bool{"lzma-text-bytewise": true, "lzma2-text-bytewise": true}
 
 func faultScenarios(seed int64, thorough bool) []faultScenario {
 	var out []faultScenario
@@ -71,6 +75,10 @@ func faultScenarios(seed int64, thorough bool) []faultScenario {
 	)
 	out = append(out, faultScenario{"xz-raw-wrapped-ring", "xz", xzOpen(XZCfg{LC: 3, PB: 2, DictCap: 65536, BufSize: 4096, Check: 4}), []string{"W0", "C"}, [][]byte{MakeData("random", 230000, seed+7)}, decXZ})
 	// 300 blocks: the index alone is several hundred bytes, written at the very end
+	// more blocks than fit into any fixed-size piece of index the writer might assemble (700 / 1500
+	// records of two bytes)
+	faultTail["xz-many-blocks"] = map[bool]int{false: 5600, true: 12000}[thorough]/8 + 100 // the whole index, the footer and the last blocks
+	out = append(out, faultScenario{"xz-many-blocks", "xz", xzOpen(XZCfg{LC: 3, PB: 2, DictCap: 4096, BufSize: 4096, Check: 0, BlockSize: 8}), []string{"W0", "C"}, [][]byte{MakeData("text", map[bool]int{false: 5600, true: 12000}[thorough], seed+9)}, decXZ})
 	out = append(out, faultScenario{"xz-300-blocks", "xz", xzOpen(XZCfg{LC: 3, PB: 2, DictCap: 4096, BufSize: 4096, Check: 1, BlockSize: 8}), []string{"W0", "C"}, [][]byte{MakeData("text", 2400, seed+8)}, decXZ})
 	l2Open := func(g W2Cfg) func(io.Writer) (wcl, error) {
 		return func(w io.Writer) (wcl, error) { return g.lib().NewWriter2(w) }
@@ -90,6 +98,8 @@ func faultScenarios(seed int64, thorough bool) []faultScenario {
 		faultScenario{"lzma-marker", "lzma", aOpen(AloneCfg{LC: 3, PB: 2, DictCap: 4096, BufSize: 4096}), []string{"W0", "W1", "C"}, [][]byte{text, rnd}, decA},
 		faultScenario{"lzma-size-big", "lzma", aOpen(AloneCfg{LC: 3, PB: 2, DictCap: 4096, BufSize: 273, Matcher: 1, Sih: true, Size: 20000}), []string{"W0", "C"}, [][]byte{MakeData("random", 20000, seed+4)}, decA},
 	)
+	out = append(out, faultScenario{"lzma-text-bytewise", "lzma", aOpen(AloneCfg{LC: 3, PB: 2, DictCap: 4096, BufSize: 4096}), []string{"W0", "C"}, [][]byte{MakeData("text", 3000, seed+10)}, decA})
+	out = append(out, faultScenario{"lzma2-text-bytewise", "lzma2", l2Open(W2Cfg{3, 0, 2, 4096, 4096, 0}), []string{"W0", "F", "W0", "C"}, [][]byte{MakeData("text", 2000, seed+11)}, decL2})
 	if thorough {
 		// a dozen further scenarios with configurations and inputs drawn from the boundary sets
 		r := rand.New(rand.NewSource(seed * 7))
@@ -257,6 +267,9 @@ func C09(c *hx.Ctx) {
 				if k > 96 {
 					jobs = append(jobs, job{si, faultPlan{K: k}, bw})
 				}
+			}
+			for k := 97; faultAllByteWrites[sc.name] && bw && k <= m; k++ {
+				jobs = append(jobs, job{si, faultPlan{K: k}, bw})
 			}
 			// sinks with more than 96 writes (byte writers): sample further indices
 			for k := 97; k <= m; k += 1 + m/c.Pick(150, 1500) {
